@@ -17,6 +17,7 @@ import os
 import random
 import shutil
 import tempfile
+import json
 import types
 
 from Bio.Seq import Seq
@@ -57,7 +58,7 @@ ASSUMPTIONS = [
     "that stop codon, as the CDS itself does; nothing else may.",
     "A TTA codon split over two exons needs a two-part marker; a contiguous 3-base marker cannot cover it.",
 ]
-REQUIRED = ["op:sub_location", "op:prepeptide_segment", "op:prepeptide_roundtrip", "op:pfam_hit", "op:nrps_domain",
+REQUIRED = ["op:tta_reused_results", "op:sub_location", "op:prepeptide_segment", "op:prepeptide_roundtrip", "op:pfam_hit", "op:nrps_domain",
             "op:nrps_motif", "op:tta_marker", "op:frameshift_location", "class:strand-1", "class:strand+1",
             "class:parts>1", "class:bridging:exon", "class:bridging:intron", "class:bridging:border",
             "class:codon_start=2", "class:codon_start=3", "class:range-on-exon-border", "class:exhaustive-ranges",
@@ -424,6 +425,21 @@ def drive_tta(ctx, gene: Gene, case):
     if len(results.features) != len(codons):
         ctx.violate("tta-marker-count", dict(facts, got=len(results.features), expected=len(codons)), case)
         return
+    # the markers of a later run that reuses these results (through their JSON form) are the same markers
+    try:
+        from antismash.config import update_config
+        update_config({"tta_threshold": 0.0})
+        rebuilt = tta.TTAResults.from_json(json.loads(json.dumps(results.to_json())), record)
+        ctx.count("op:tta_reused_results")
+        # (the order of the markers is not part of the property: contiguous ones are written first)
+        got = None if rebuilt is None else sorted(str(f.location) for f in rebuilt.features)
+        want = sorted(str(f.location) for f in results.features)
+        if got != want:
+            ctx.violate("tta-markers-survive-reuse",
+                        dict(facts, rebuilt=got, detected=want,
+                             codon_split=any(len(f.location.parts) > 1 for f in results.features)), case)
+    except Exception as err:  # pylint: disable=broad-except
+        ctx.violate("tta-reuse-crash", dict(facts, exception=type(err).__name__, message=str(err)[:160]), case)
     added = record.get_generics()[before:]
     if [id(f) for f in added] != [id(f) for f in results.features]:
         ctx.violate("tta-add-to-record", dict(facts, added=len(added), expected=len(results.features)), case)
